@@ -80,6 +80,10 @@ def steered_callset(rng, samples, smap, project, nrec, multi_ok=True):
                     gts[col[s]] = G.random_gt(rng, "multi", 2)
                 else:
                     gts[col[s]] = G.random_gt(rng, "missing", 1)
+        if records and rng.random() < 0.06:
+            # the previous record once more (same position, same calls): it contributes its term again
+            records.append(Record("c1", records[-1].pos, list(records[-1].gts), alts=list(records[-1].alts)))
+            continue
         records.append(Record("c1", 10 + ri, gts, alts=["C", "G"] if two_alts else ["C"]))
     return CallSet(samples, [("c1", 10 ** 6)], records)
 
@@ -101,6 +105,14 @@ def gen(seed, labels, cohort_max=None):
         nrec = rng.choice([1, 2, 5, 10, 30, 80])
     samples = G.sample_names(rng, ns)
     smap = G.random_sample_map(rng, samples, npops=npops, subset=rng.random() < 0.5 and not cohort_max)
+    if cohort_max == "overflow-band" and rng.random() < 0.5:
+        # two populations: each factor C(t_j, m_j) fits an f64 on its own, their product does not (a big cohort next to a small one)
+        nb_ = rng.choice([480, 500, 505, 510])
+        nsm_ = rng.randint(8, 24)
+        samples = G.sample_names(rng, nb_ + nsm_)
+        smap = [(s_, "big" if j_ < nb_ else "small") for j_, s_ in enumerate(samples)]
+        if rng.random() < 0.5:
+            smap = smap[nb_:] + smap[:nb_]
     sizes = G.pop_sizes(smap)
     if labels and isinstance(labels[-1], int) and sum(sizes) <= 6 and not cohort_max:
         # systematic sweep: case number i visits target number i of the full product 0..2n_j
@@ -116,6 +128,9 @@ def gen(seed, labels, cohort_max=None):
         project = G.random_project(rng, smap)
         if cohort_max == "overflow-band":
             project = [rng.choice([515, 514, 516, 517, z, z + 1, z - 1]) if z < 530 else rng.choice([z, z + 1, z - 2, z // 2, 538]) for z in sizes]
+            project = [min(2 * z, m_) for m_, z in zip(project, sizes)]
+            if len(sizes) == 2:
+                project = [rng.choice([z, z + 1, z - 1]) for z in sizes]        # near-central targets in both populations
         elif cohort_max:
             project = [rng.choice([2 * z, 2 * z - 1, 171, 172, 170, rng.randint(1, 2 * z), z, 2 * (z // 2)]) for z in sizes]
             project = [min(2 * z, max(0, m)) for m, z in zip(project, sizes)]
